@@ -39,7 +39,7 @@ def run(tier, rep):
         'rule': 'the unmodified extension sources compiled against a minimal Geant4 stand-in (CLHEP units MeV=1, second=1e9 ns; the particle gun follows G4ParticleGun semantics and '
                 'records every GeneratePrimaryVertex) and driven over the product category {background, dbd, "", alpha} x nuclides (10 valid per category, names of the other '
                 'category, unknown names, names the plumbing accepts by prefix but nobody publishes) x seed {-1, 1, 314159} x mode {-3,0,1,4,9,10,20,21,25} x level {-1,0,1,99} x '
-                'window {none, valid, inverted} x MDL {off, on} x vertex generator {none, unique point, exhausted after one event}; longer runs (200 / 1000 decays of Kr81, Co60, Bi207, Bi214 and two double-beta cascades) without a vertex generator and with one that hands out a different point at every call (decay k must sit on point k with all its particles); on a sub-grid additionally: gun multiplicity set to 2 (3) by the user before the run, and the same action object first serving one of 5 other configurations (MDL on a double-beta and on a background request, a windowed request, two refused requests) before SetConfiguration; refused <=> the core refuses (driver rules + '
+                'window {none, valid, inverted, lower bound only, upper bound only} x MDL {off, on} x vertex generator {none, unique point, exhausted after one event}; longer runs (200 / 1000 decays of Kr81, Co60, Bi207, Bi214 and two double-beta cascades) without a vertex generator and with one that hands out a different point at every call (decay k must sit on point k with all its particles); on a sub-grid additionally: gun multiplicity set to 2 (3) by the user before the run, and the same action object first serving one of 5 other configurations (MDL on a double-beta and on a background request, a windowed request, two refused requests) before SetConfiguration (with and without an explicit ApplyConfiguration afterwards); refused <=> the core refuses (driver rules + '
                 'decay0_generator::initialize in-process), observed as AbortRun/exception and zero primaries; accepted: one primary per particle, in order, species, momentum in '
                 'MeV, time in seconds, common vertex; non-trivial = accepted configurations',
     })
